@@ -124,6 +124,8 @@ func main() {
 		"T | summarize n = count(), m = countif(a > 1) by b | top 3 by n",
 		"L | where x > 1 | join kind=inner (R | where y > 0) on k, $left.x < $right.y | project x, y",
 		"A | join (B | join kind=leftouter (C) on $left.b == $right.c) on $left.a == $right.b | count",
+		`T | where a == 'x\'y' and b == "p\\q"`,
+		`T | extend d = 'back\\slash', e = "o'clock" | where c == "dq\"x"`,
 	}
 	walkWant := make([]string, len(srcs))
 	for i, s := range srcs {
